@@ -16,14 +16,15 @@ TRUSTED = []
 
 
 def make_shape(rng):
-    fam = rng.choice(['convex', 'star', 'star', 'comb', 'spiral', 'lattice', 'bigstar'])
+    fam = rng.choice(['convex', 'star', 'star', 'comb', 'spiral', 'lattice', 'bigstar', 'lobes', 'lobes', 'lobes'])
     if fam == 'convex': b = G.convex_polygon(rng, n=rng.randint(3, 12))
     elif fam == 'star': b = G.star_polygon(rng, n=rng.randint(4, 30), R=rng.choice([10.0, 100.0]))
     elif fam == 'bigstar': b = G.star_polygon(rng, n=rng.randint(81, 120), R=1000.0, bits=12)
     elif fam == 'comb': b = G.comb_polygon(rng, teeth=rng.choice([2, 3, 5, 9, 20, 29]))
     elif fam == 'spiral': b = G.spiral_polygon(rng)
+    elif fam == 'lobes': b = G.lobed_polygon(rng)
     else: b = G.lattice_polygon(rng, ncells=rng.randint(3, 16), w=7, h=7)[0]
-    nh = rng.choice([0, 0, 1, 2, 4, 6]) if fam in ('convex', 'star', 'bigstar') else 0
+    nh = rng.choice([0, 0, 1, 2, 4, 6]) if fam in ('convex', 'star', 'bigstar') else (rng.choice([0, 1, 2, 3]) if fam == 'lobes' else 0)
     hs = G.holes_in(rng, b, nh) if nh else []
     if rng.random() < 0.5: b = b[::-1]
     return fam, b, hs
@@ -142,7 +143,7 @@ def fam_predicates(ctx, rng):
             ctx.violation('tri.pred:point_in_triangle', '_point_in_triangle=%r expected %r' % (inside, exp), dict(desc, p=p))
 
 
-FAMILIES = [(fam_earcut, 90), (fam_predicates, 200)]
+FAMILIES = [(fam_earcut, 130), (fam_predicates, 200)]
 
 
 def explore(ctx):
